@@ -1,6 +1,9 @@
 package props
 
 import (
+	"bytes"
+	"encoding/base64"
+	"encoding/gob"
 	"fmt"
 	"math"
 
@@ -117,6 +120,52 @@ func shapeClass(p rtcp.Packet) string {
 func valueString(v ref.V) string {
 	s := fmt.Sprintf("%s :: %s", v.String(), ref.Dump(v.P))
 	return s
+}
+
+type gobBox struct {
+	P    rtcp.Packet
+	Type string
+}
+
+func init() {
+	for _, e := range Entries {
+		if e.New != nil {
+			gob.Register(e.New())
+		}
+	}
+	for _, b := range ref.XRBlockAlphabet() {
+		gob.Register(b.Make(ref.NewTagger()))
+	}
+	gob.Register(&rtcp.RunLengthChunk{})
+	gob.Register(&rtcp.StatusVectorChunk{})
+}
+
+// valueGob serialises a packet value for replay files ("" if it cannot be serialised).
+func valueGob(v ref.V) string {
+	var buf bytes.Buffer
+	if _, pan := bx.Guard(func() {
+		if err := gob.NewEncoder(&buf).Encode(gobBox{P: v.P, Type: v.Type}); err != nil {
+			buf.Reset()
+		}
+	}); pan {
+		return ""
+	}
+	if buf.Len() > 200000 {
+		return ""
+	}
+	return base64.StdEncoding.EncodeToString(buf.Bytes())
+}
+
+func valueFromGob(s string) (ref.V, error) {
+	b, err := base64.StdEncoding.DecodeString(s)
+	if err != nil {
+		return ref.V{}, err
+	}
+	var box gobBox
+	if err := gob.NewDecoder(bytes.NewReader(b)).Decode(&box); err != nil {
+		return ref.V{}, err
+	}
+	return ref.V{P: box.P, Type: box.Type, Shape: "replayed"}, nil
 }
 
 func keyJoin(parts ...string) string {
